@@ -427,6 +427,15 @@ func checkC14(p *C14Plan, rc *simkit.RunCtx) {
 		return
 	}
 	rc.H("backend=%s subs=%d hooks=%d writes=%d", p.Backend, len(s.subs), len(s.hooks), len(s.writes))
+	for _, w := range s.writes {
+		rc.H("w%d %s %s ok=%v", w.Writer, w.Kind, w.Key, w.OK)
+	}
+	for si, ss := range s.subs {
+		rc.H("sub%d prefix=%q feed=%d cancelled=%v", si, prefixPool[ss.spec.Prefix], len(ss.feed), ss.cancelled)
+	}
+	for hi, h := range s.hooks {
+		rc.H("hook%d calls=%d action=%s", hi, len(h.calls), h.spec.Action)
+	}
 	if rc.Stats.Stalled {
 		rc.Fail("C14.stall", "a database call never returned", rc.Stats.StallInfo)
 		return
